@@ -15,7 +15,7 @@ KeyPool == {K(s, l) : s \in ShortPool, l \in LongPool} \ {K(0, <<>>)}
 A1(k, n) == [s |-> k.s, l |-> k.l, pos |-> FALSE, kind |-> "int", vm |-> "req", mand |-> FALSE,
              card |-> [t |-> "none", a |-> 0, b |-> 0], checks |-> <<>>, formats |-> <<>>, sep |-> 44, clear |-> FALSE,
              sort |-> FALSE, uniq |-> "no", multi |-> FALSE, req |-> <<>>, exc |-> <<>>, init |-> 0 - n, depr |-> FALSE,
-             unset |-> FALSE, cspell |-> 0, grp |-> 0, hidden |-> FALSE, dashes |-> FALSE]
+             unset |-> FALSE, cspell |-> 0, grp |-> 0, hidden |-> FALSE, dashes |-> FALSE, mix |-> FALSE]
 CfgOf(ks, ab) == [abbr |-> ab, endvalues |-> FALSE, hcons |-> <<>>, args |-> [n \in 1..Len(ks) |-> A1(ks[n], n)]]
 MCInit == /\ keys \in UNION {[1..n -> KeyPool] : n \in 1..MaxKeys}
           /\ abbr \in BOOLEAN
